@@ -43,19 +43,52 @@ V2r == {d \in DictsOver(Leaves \cup V1, K) :
 V3r == {d \in DictsOver(Leaves \cup V2r, K) :
           \A k \in Keys(d) \ {KA} : ~IsD(d.m[k]) \/ IsEmpty(d.m[k])}
 
+KB == CHOOSE k \in K \ {KA} : TRUE
+L0 == Leaf(ClassName[1], 0)
+\* a few dictionaries of depth 3 (the level must be decremented twice to get them right)
+D3few == {Dict([j \in {KA} |-> Dict([i \in {KA} |-> Dict([h \in {KA} |-> L0])])]),
+          Dict([j \in {KA} |-> Dict([i \in {KA} |-> Dict([h \in {KA, KB} |-> IF h = KA THEN Leaf(ClassName[NC], NC - 1) ELSE L0])])]),
+          Dict([j \in {KA, KB} |-> IF j = KA THEN Dict([i \in {KA} |-> Dict([h \in {KB} |-> L0])]) ELSE L0]),
+          Dict([j \in {KA} |-> Dict([i \in {KA} |-> Empty])])}
+V2rq == V2r \cup D3few
 LevelsQuick == {-1, 0, 1, 2}
-LevelsThorough == {-1, 0, 1, 2, 3}
+LevelsThorough == {-2, -1, 0, 1, 2, 3}        \* any negative level is unbounded
 LevelsDeep == {-1, 2}
-AllOps == {"inter", "diff", "updrec", "nested"}
+AllOps == {"inter", "diff", "updrec", "nested", "updstr"}
 PairOps == {"inter", "diff", "updrec"}
 InterOnly == {"inter"}
 NoDicts == {}
 
+\* update_nested with chains other.key.key... of length 0..3
+RECURSIVE Chain(_, _, _)
+Chain(k, n, tail) == IF n = 0 THEN tail ELSE Dict([j \in {k} |-> Chain(k, n - 1, tail)])
+ChainArgs(k) ==
+  {<<d, Chain(k, n, t)>> : d \in {Empty, Dict([j \in {k} |-> L0]), Dict([j \in {k} |-> Dict([i \in {KB} |-> L0])]),
+                                  Dict([j \in {KA, KB} |-> IF j = k THEN Empty ELSE L0])},
+                           n \in 0..3, t \in {Empty, Dict([j \in {IF k = KA THEN KB ELSE KA} |-> L0])}}
+\* update_recursively(d, "k1.k2", value): the string form; key says which variant:
+\*   "value" (other string + value), "novalue" (the last part of the string is the value),
+\*   "novalue1" (a string without dots and no value: LenaValueError), "badvalue" (a dictionary and a value)
+RECURSIVE NestP(_, _)
+NestP(p, v) == IF p = <<>> THEN v ELSE Dict([j \in {Head(p)} |-> NestP(Tail(p), v)])
+StrPaths == {<<KA>>, <<KA, KB>>, <<KB, KA>>, <<KA, KA, KB>>}
+StrVals == Leaves \cup {Empty, Dict([j \in {KB} |-> L0])}
+KeyStr(k) == Leaf(k, 50)                           \* a key used as the (string) value
+StrArgs(variant) ==
+  CASE variant = "value"    -> {<<d, NestP(p, v)>> : d \in UPair, p \in StrPaths, v \in StrVals}
+    [] variant = "novalue"  -> {<<d, NestP(SubSeq(p, 1, Len(p) - 1), KeyStr(p[Len(p)]))>> :
+                                  d \in UPair, p \in {q \in StrPaths : Len(q) >= 2}}
+    [] variant = "novalue1" -> {<<d, NestP(<<k>>, Leaf("$missing", 51))>> : d \in V1, k \in K}
+    [] variant = "badvalue" -> {<<d, o>> : d \in V1, o \in {Empty, Dict([j \in {KA} |-> L0])}}
+Classes == {"dict", "Context", "MyDict"}           \* dict and two subclasses
+
 VARIABLES op, lv, key,    \* the call: function, level argument, key argument
           a0,             \* arguments as passed (never changes)
           args,           \* arguments as the caller sees them now
-          pc, res, i, todo, ptr
-vars == <<op, lv, key, a0, args, pc, res, i, todo, ptr>>
+          pc, res, i, todo, ptr,
+          cls, rcls,      \* class of the argument dictionaries; class of the returned dictionary
+          exc             \* exception raised ("" = none)
+vars == <<op, lv, key, a0, args, pc, res, i, todo, ptr, cls, rcls, exc>>
 
 NoKey == "-"
 PairArgs == UPair \X UPair
@@ -67,8 +100,13 @@ Init ==
      \/ op = "diff"   /\ a0 \in PairArgs  /\ lv \in Levels /\ key = NoKey
      \/ op = "updrec" /\ a0 \in PairArgs  /\ lv = -1 /\ key = NoKey
      \/ op = "nested" /\ key \in K /\ lv = -1
-                      /\ a0 \in {p \in PairArgs : ChainOk(p[2], key)}
+                      /\ a0 \in {p \in PairArgs \cup ChainArgs(key) : ChainOk(p[2], key)}
+     \/ op = "updstr" /\ key \in {"value", "novalue", "novalue1", "badvalue"} /\ lv = -1
+                      /\ a0 \in StrArgs(key)
   /\ args = a0 /\ pc = "start" /\ res = Empty /\ i = 0 /\ todo = {} /\ ptr = <<>>
+  \* intersection "returns a dictionary or its subtype (copied from dicts[0])"
+  /\ cls \in IF op = "inter" /\ Len(a0) \in {1, 2} /\ (\A j \in DOMAIN a0 : a0[j] \in V1) THEN Classes ELSE {"dict"}
+  /\ rcls = "dict" /\ exc = ""
 
 Done == pc = "done"
 Finish(r) == res' = r /\ pc' = "done"
@@ -86,17 +124,17 @@ Pruned(r, d, l) ==
                IF Eq(d.m[k], r.m[k]) THEN r.m[k]
                ELSE InterN(<<r.m[k], d.m[k]>>, l - 1)])
 IStart == /\ pc = "start" /\ op = "inter"
-          /\ IF Len(args) = 0 THEN Finish(Empty) /\ i' = i
-             ELSE res' = args[1] /\ i' = 2 /\ pc' = "iloop"
-          /\ UNCHANGED <<op, lv, key, a0, args, todo, ptr>>
+          /\ IF Len(args) = 0 THEN Finish(Empty) /\ i' = i /\ rcls' = "dict"
+             ELSE res' = args[1] /\ i' = 2 /\ pc' = "iloop" /\ rcls' = cls      \* deep copy of dicts[0]
+          /\ UNCHANGED <<cls, exc, op, lv, key, a0, args, todo, ptr>>
 IPrune == /\ pc = "iloop" /\ i <= Len(args)
           /\ LET r == Pruned(res, args[i], lv) IN
                /\ res' = r
                /\ IF IsEmpty(r) THEN pc' = "done" /\ i' = i
                   ELSE pc' = pc /\ i' = i + 1
-          /\ UNCHANGED <<op, lv, key, a0, args, todo, ptr>>
+          /\ UNCHANGED <<cls, rcls, exc, op, lv, key, a0, args, todo, ptr>>
 IReturn == /\ pc = "iloop" /\ i > Len(args) /\ pc' = "done"
-           /\ UNCHANGED <<op, lv, key, a0, args, res, i, todo, ptr>>
+           /\ UNCHANGED <<cls, rcls, exc, op, lv, key, a0, args, res, i, todo, ptr>>
 
 (***************************************************************************)
 (* difference: equal -> {}; level 0 -> d1; else one decision per key of d1 *)
@@ -105,7 +143,7 @@ DStart == /\ pc = "start" /\ op = "diff"
           /\ IF Eq(args[1], args[2]) THEN Finish(Empty) /\ todo' = todo
              ELSE IF lv = 0 THEN Finish(args[1]) /\ todo' = todo
              ELSE res' = Empty /\ todo' = Keys(args[1]) /\ pc' = "dloop"
-          /\ UNCHANGED <<op, lv, key, a0, args, i, ptr>>
+          /\ UNCHANGED <<cls, rcls, exc, op, lv, key, a0, args, i, ptr>>
 DKey(k) ==
   /\ pc = "dloop" /\ k \in todo
   /\ LET d1 == args[1]  d2 == args[2] IN
@@ -115,16 +153,22 @@ DKey(k) ==
        ELSE LET sub == Diff(d1.m[k], d2.m[k], lv - 1) IN
               res' = IF IsEmpty(sub) THEN res ELSE With(res, k, sub)
   /\ todo' = todo \ {k}
-  /\ UNCHANGED <<op, lv, key, a0, args, pc, i, ptr>>
+  /\ UNCHANGED <<cls, rcls, exc, op, lv, key, a0, args, pc, i, ptr>>
 DReturn == /\ pc = "dloop" /\ todo = {} /\ pc' = "done"
-           /\ UNCHANGED <<op, lv, key, a0, args, res, i, todo, ptr>>
+           /\ UNCHANGED <<cls, rcls, exc, op, lv, key, a0, args, res, i, todo, ptr>>
 
 (***************************************************************************)
 (* update_recursively(d, other): d = args[1] is modified in place          *)
 (***************************************************************************)
 UStart == /\ pc = "start" /\ op = "updrec"
           /\ todo' = Keys(args[2]) /\ pc' = "uloop"
-          /\ UNCHANGED <<op, lv, key, a0, args, res, i, ptr>>
+          /\ UNCHANGED <<cls, rcls, exc, op, lv, key, a0, args, res, i, ptr>>
+\* the string form: other = str_to_dict(other, value) first (a0[2] is what that gives)
+UStrConv == /\ pc = "start" /\ op = "updstr"
+            /\ IF key \in {"novalue1", "badvalue"}
+                 THEN exc' = "LenaValueError" /\ pc' = "done" /\ todo' = todo
+               ELSE exc' = exc /\ todo' = Keys(args[2]) /\ pc' = "uloop"
+            /\ UNCHANGED <<cls, rcls, op, lv, key, a0, args, res, i, ptr>>
 UKey(k) ==
   /\ pc = "uloop" /\ k \in todo
   /\ LET d == args[1]  val == args[2].m[k]
@@ -134,31 +178,31 @@ UKey(k) ==
                 ELSE val
      IN args' = [args EXCEPT ![1] = With(d, k, new)]
   /\ todo' = todo \ {k}
-  /\ UNCHANGED <<op, lv, key, a0, pc, res, i, ptr>>
+  /\ UNCHANGED <<cls, rcls, exc, op, lv, key, a0, pc, res, i, ptr>>
 UReturn == /\ pc = "uloop" /\ todo = {} /\ pc' = "done"
-           /\ UNCHANGED <<op, lv, key, a0, args, res, i, todo, ptr>>
+           /\ UNCHANGED <<cls, rcls, exc, op, lv, key, a0, args, res, i, todo, ptr>>
 
 (***************************************************************************)
 (* update_nested(key, d, other): d = args[1], other = args[2]              *)
 (***************************************************************************)
 NStart == /\ pc = "start" /\ op = "nested"
           /\ pc' = IF key \in Keys(args[1]) THEN "nwalk" ELSE "nassign"
-          /\ UNCHANGED <<op, lv, key, a0, args, res, i, todo, ptr>>
+          /\ UNCHANGED <<cls, rcls, exc, op, lv, key, a0, args, res, i, todo, ptr>>
 NWalk == /\ pc = "nwalk" /\ key \in Keys(Get(args[2], ptr))
          /\ ptr' = Append(ptr, key)
-         /\ UNCHANGED <<op, lv, key, a0, args, pc, res, i, todo>>
+         /\ UNCHANGED <<cls, rcls, exc, op, lv, key, a0, args, pc, res, i, todo>>
 NInsert == /\ pc = "nwalk" /\ key \notin Keys(Get(args[2], ptr))
            /\ args' = [args EXCEPT ![2] = Put(args[2], Append(ptr, key), args[1].m[key])]
            /\ pc' = "nassign"
-           /\ UNCHANGED <<op, lv, key, a0, res, i, todo, ptr>>
+           /\ UNCHANGED <<cls, rcls, exc, op, lv, key, a0, res, i, todo, ptr>>
 NAssign == /\ pc = "nassign"
            /\ args' = [args EXCEPT ![1] = With(args[1], key, args[2])]
            /\ pc' = "done"
-           /\ UNCHANGED <<op, lv, key, a0, res, i, todo, ptr>>
+           /\ UNCHANGED <<cls, rcls, exc, op, lv, key, a0, res, i, todo, ptr>>
 
 Next == \/ IStart \/ IPrune \/ IReturn
         \/ DStart \/ (\E k \in K : DKey(k)) \/ DReturn
-        \/ UStart \/ (\E k \in K : UKey(k)) \/ UReturn
+        \/ UStart \/ UStrConv \/ (\E k \in K : UKey(k)) \/ UReturn
         \/ NStart \/ NWalk \/ NInsert \/ NAssign
 Spec == Init /\ [][Next]_vars
 
@@ -167,7 +211,10 @@ Spec == Init /\ [][Next]_vars
 (***************************************************************************)
 InterIsRef  == Done /\ op = "inter"  => Eq(res, InterN(a0, lv))
 DiffIsRef   == Done /\ op = "diff"   => Eq(res, Diff(a0[1], a0[2], lv))
-UpdRecIsRef == Done /\ op = "updrec" => Eq(args[1], UpdRec(a0[1], a0[2]))
+UpdRecIsRef == /\ Done /\ op \in {"updrec", "updstr"} /\ exc = "" => Eq(args[1], UpdRec(a0[1], a0[2]))
+               /\ Done /\ exc # "" => args = a0 /\ op = "updstr" /\ exc = "LenaValueError"
+\* "returns a dictionary or its subtype (copied from dicts[0])"
+InterKeepsClass == Done /\ op = "inter" => rcls = IF Len(a0) = 0 THEN "dict" ELSE cls
 NestedIsRef == Done /\ op = "nested" => /\ Eq(args[1], NestedD(key, a0[1], a0[2]))
                                         /\ Eq(args[2], NestedOther(key, a0[1], a0[2]))
 
@@ -272,7 +319,7 @@ ArgsUnchanged == [][/\ op \in {"inter", "diff"} => args' = args
 (* Export of every call with its expected outcome (S2C).                   *)
 (***************************************************************************)
 Emit == Done => PrintT(ToJson(
-   [op |-> op, lv |-> lv, key |-> key, args |-> a0, res |-> res,
-    post |-> IF op \in {"updrec", "nested"} THEN args ELSE <<>>,   \* else = args (ArgsUnchanged)
+   [op |-> op, lv |-> lv, key |-> key, args |-> a0, res |-> res, cls |-> cls, rcls |-> rcls, exc |-> exc,
+    post |-> IF op \in {"updrec", "nested", "updstr"} THEN args ELSE <<>>,   \* else = args (ArgsUnchanged)
     inter |-> IF op = "diff" THEN InterN(a0, lv) ELSE Empty]))
 =============================================================================
